@@ -4,6 +4,7 @@ Tier 2: the correlation part of `_handle_request` + `put_delivery_segmented`, ea
 run taken atomically (the session model owns interleavings of handlers with other tasks).
 -/
 import SmppVerif.Lemmas.Corr
+import SmppVerif.Gen.Site
 
 namespace SmppVerif.Props.C09
 open SmppVerif SmppVerif.Corr SmppVerif.Lemmas.Corr
@@ -73,9 +74,15 @@ example :
                 text := [97, 98, 99] }] := by
   decide +kernel
 
+/-- TIE TO THE SOURCE (regenerated on every run, Gen/Site.lean): an inbound segment is handed to `put_delivery_segmented` after it was decoded, before any receipt handling -/
+theorem handle_request_step_order :
+    Gen.Site.handleRequest.filter (fun x => x ∈ ["from_pdu", "put_delivery_segmented", "get_delivery"]) = ["from_pdu", "put_delivery_segmented", "get_delivery"] := by
+  decide
+
 end SmppVerif.Props.C09
 
 #print axioms SmppVerif.Props.C09.reassemble_any_order
 #print axioms SmppVerif.Props.C09.ack_every_segment
 #print axioms SmppVerif.Props.C09.no_cross_interference
 #print axioms SmppVerif.Props.C09.numeric_order
+#print axioms SmppVerif.Props.C09.handle_request_step_order
